@@ -55,3 +55,8 @@ pub assume_specification [i64::unsigned_abs] (x: i64) -> (r: u64)
 pub broadcast axiom fn spec_from_is_from<T: core::convert::From<S>, S>(s: S, t: T)
     requires #[trigger] vstd::std_specs::control_flow::spec_from::<T, S>(s, t), <T as vstd::std_specs::convert::FromSpec<S>>::obeys_from_spec()
     ensures t == <T as vstd::std_specs::convert::FromSpec<S>>::from_spec(s);
+// std: "Vec never allocates more than isize::MAX bytes"; slices likewise (core::slice::from_raw_parts safety contract).
+pub broadcast axiom fn axiom_vec_i64_len(v: Vec<i64>) ensures #[trigger] v@.len() <= 0x0FFF_FFFF_FFFF_FFFF;
+pub broadcast axiom fn axiom_slice_vec_i64_len(s: &[Vec<i64>]) ensures #[trigger] s@.len() <= 0x0555_5555_5555_5555;
+pub assume_specification<Idx: Clone> [<core::ops::Range<Idx> as Clone>::clone] (r: &core::ops::Range<Idx>) -> (o: core::ops::Range<Idx>)
+    ensures cloned(r.start, o.start), cloned(r.end, o.end);
